@@ -836,7 +836,7 @@ func init() {
 		for i := 0; i < n; i++ {
 			cases = append(cases, genCase(rng))
 		}
-		rep.Rule = "corpus first, then seeded: 60% valid (1-3 identities, count/histogram, timestamps at window edges of the current, previous and next windows, clock advances aimed at bucket+window+grace-1/+0/+1, scans), 20% race-heavy (35% of the steps hold the ingest worker between its expiry test and its insert while the clock passes the expiry and the reporter scans), 4% colliding identities (F9), 8% adversarial (negative timestamps/values), 5% unknown stat type (panic), 3% zero window (panic). Non-trivial: at least one scan reported something and at least 3 stats were fed; distinct by step list. The monitor runs on in-domain cases (window > 0, known types, timestamps >= 0)."
+		rep.Rule = "corpus first, then seeded: 60% valid (1-3 identities, count/histogram, timestamps at window edges of the current, previous and next windows, clock advances aimed at bucket+window+grace-1/+0/+1, scans), 20% race-heavy (35% of the steps hold the ingest worker between its expiry test and its insert while the clock passes the expiry and the reporter scans), 4% identities whose bare concatenations coincide (regression for F9, fixed in 7beb2ab: must now be kept apart), 8% adversarial (negative timestamps/values), 5% unknown stat type (panic), 3% zero window (panic). Non-trivial: at least one scan reported something and at least 3 stats were fed; distinct by step list. The monitor runs on in-domain cases (window > 0, known types, timestamps >= 0)."
 		results := runAll(cases)
 		var sb strings.Builder
 		sb.WriteString("From Bifrost.model Require Import Base Aggregator.\nOpen Scope string_scope.\nDefinition cases : list acase := [\n")
